@@ -108,6 +108,15 @@ const TILES_3D: &[&[usize]] = &[
     &[10, 5],
     &[4, 2, 1],
     &[64, 16, 8],
+    // leaf tiles above 8 (added after seeded change C07-q): more than 64
+    // columns per leaf, so per-leaf batches of hits and gradients are not
+    // bounded by 64
+    &[16],
+    &[12],
+    &[32, 16],
+    &[10],
+    &[24, 12],
+    &[9, 3],
 ];
 
 fn gen_mat3(ch: &mut Chooser, allow_persp: bool, extent: f32) -> Matrix3<f32> {
